@@ -106,7 +106,7 @@ func solveAllWhole(obls []*Obligation, dir string, timeout int) float64 {
 		}
 	}
 	if len(gq) > 0 {
-		total += solvePhase(gq, dir, minInt(timeout, 5), false)
+		total += solvePhase(gq, dir, maxInt(5, timeout/2), false)
 		for _, o := range gq {
 			o.ground = false
 			o.relaxed = false
@@ -126,7 +126,7 @@ func solveAllWhole(obls []*Obligation, dir string, timeout int) float64 {
 		for _, o := range nl {
 			o.relaxed = true
 		}
-		total += solvePhase(nl, dir, minInt(timeout, 10), false)
+		total += solvePhase(nl, dir, maxInt(minInt(timeout, 10), timeout/2), false)
 		for _, o := range nl {
 			o.relaxed = false
 			if o.Status == "discharged" {
@@ -430,3 +430,4 @@ func minInt(a, b int) int {
 	}
 	return b
 }
+
